@@ -537,7 +537,7 @@ func checkKeywordTrie(c *Ctx, u *Universe) {
 			case *ast.CompositeLit:
 				for _, el := range rx.Elts {
 					if kv, ok := el.(*ast.KeyValueExpr); ok {
-						if id, ok := kv.Key.(*ast.Ident); ok && id.Name == "Type" {
+						if id, ok := kv.Key.(*ast.Ident); ok && astFieldName(info, id) == "Type" {
 							t = Val{K: vInt}
 							if v, ok := constInt(info, kv.Value); ok {
 								t.I = v
@@ -792,7 +792,7 @@ func checkOperators(c *Ctx, u *Universe) {
 		}
 		for _, el := range cl.Elts {
 			if kv, ok := el.(*ast.KeyValueExpr); ok {
-				if id, ok := kv.Key.(*ast.Ident); ok && id.Name == "Type" {
+				if id, ok := kv.Key.(*ast.Ident); ok && astFieldName(info, id) == "Type" {
 					v := pe.eval(o.St, kv.Value)
 					return v.I, v.K == vInt
 				}
